@@ -62,6 +62,10 @@ class C07(Prop):
         cfg["dups"] = False
         world = G.gen_world(rng, cfg)
         labels = [o["l"] for o in world["objects"]]
+        if not falsy:
+            for o in world["objects"]:
+                if not o["f"]["kids"]:
+                    o["f"]["kids"] = [rng.choice(labels)]      # an empty list is a falsy operand value too
         world["domains"] = {"d0": rng.sample(labels, rng.randint(1, len(labels)))}
         cg = G.CondGen(rng, cfg, world, ["x"], {})
         conds = [cg.cond(["x"], cfg["depth"]) for _ in range(rng.choice([0, 1, 1, 2]))]
